@@ -259,6 +259,23 @@ def m_map_or(ex, p, call, k):
         split_enum(ex, p, v, 'Option', OPTION, on, opt_payload_ty(v))
 
 
+def m_opt_or(ex, p, call, k):
+    """Option::or(a, b) / Option::and(a, b) / Result::or / Result::and (eager variants)"""
+    meth = call.short.rsplit('::', 1)[-1]
+    a, b = call.args[0], call.args[1]
+    is_res = 'Result' in call.short
+
+    def on(q, name, pay):
+        good = name in ('Some', 'Ok')
+        if meth == 'or':
+            return k(q, (Agg('Result' if is_res else 'Option', name, (pay[0],)) if good else b))
+        return k(q, b if good else (err(pay[0]) if is_res else NONE))
+    if is_res:
+        split_enum(ex, p, a, 'Result', RESULT, on, res_payload_ty(a))
+    else:
+        split_enum(ex, p, a, 'Option', OPTION, on, opt_payload_ty(a))
+
+
 def m_ok_or(ex, p, call, k):
     v, e = call.args[0], call.args[1]
     split_enum(ex, p, v, 'Option', OPTION, lambda q, n, pay: k(q, ok(pay[0]) if n == 'Some' else err(e)), opt_payload_ty(v))
@@ -783,6 +800,7 @@ GLOBAL_MODELS = [
     (R(r'(Option|Result)::(map|map_err|and_then|unwrap_or_else|ok_or_else|or_else|filter|is_some_and|is_ok_and|is_none_or|is_err_and)$'), m_opt_map),
     (R(r'(Option|Result)::(map_or|map_or_else)$'), m_map_or),
     (R(r'Option::ok_or$'), m_ok_or),
+    (R(r'(Option|Result)::(or|and)$'), m_opt_or),
     (R(r'Result::ok$'), m_res_ok),
     (R(r'Result::err$'), m_res_err),
     (R(r'Option::(as_ref|as_mut|as_pin_mut|as_pin_ref|as_deref|as_deref_mut)$'), m_opt_asref),
